@@ -213,3 +213,58 @@ func VerifHarness_C02_expiry_between_datagrams() {
 	vAssert(len(turnA.Writes) == 1, "C01.expired_permission_never_authorises_inbound_either")
 	vReach("end")
 }
+
+// Two datagrams from the same bound peer with an expiry in between: the relay loop must decide on the state of the
+// tables at the moment each datagram arrives, not on what it saw for the previous one. After the channel expired
+// (its permission still alive) the second datagram comes as a Data indication, never as ChannelData on the old
+// number - which may meanwhile belong to another peer; after the permission expired too, it is discarded.
+//
+//verif:props=C02,C08,C05 replay=model unwind=20 bounds="one channel binding (arbitrary valid number, arbitrary IPv4 peer); two datagrams (0..4 bytes) from exactly that peer; between them the binding expires, optionally its permission too, optionally the number is bound to another peer"
+func VerifHarness_C02_channel_expiry_between_datagrams() {
+	env := VNewManager(false, false)
+	m := env.M
+	turnA := &VPacketConn{Name: "turnA"}
+	a, err := m.CreateAllocation(VFiveTuple(), turnA, proto.ProtoUDP, 0, 600*time.Second, "u1", "realm", proto.RequestedFamilyIPv4)
+	vAssume(err == nil)
+	log := &VLogger{}
+	peer := VUDPAddr4()
+	num := proto.ChannelNumber(vU16())
+	cb := NewChannelBind(num, peer, log)
+	vAssume(a.AddChannelBind(cb, 600*time.Second, 300*time.Second) == nil)
+	perm := a.GetPermission(peer)
+	vAssume(perm != nil)
+	permToo, rebound := vBool(), vBool()
+	other := VUDPAddr4()
+	vAssume(!vIPEq(other.IP, peer.IP))
+	env.Relays[0].Script = []VDatagram{
+		{Data: vBytes(4), From: &net.UDPAddr{IP: peer.IP, Port: peer.Port}},
+		{Data: vBytes(4), From: &net.UDPAddr{IP: peer.IP, Port: peer.Port}, Before: func() {
+			vFire(cb.lifetimeTimer)
+			if permToo {
+				vFire(perm.lifetimeTimer)
+			}
+			if rebound {
+				_ = a.AddChannelBind(NewChannelBind(num, other, log), 600*time.Second, 300*time.Second)
+			}
+		}},
+	}
+	vRunSpawn(0)
+	vAssert(len(turnA.Writes) >= 1, "C02.first_datagram_of_the_bound_peer_is_forwarded")
+	if len(turnA.Writes) >= 1 {
+		w := turnA.Writes[0]
+		vAssert(vAnd(w.P[0] >= 0x40, w.P[0] <= 0x7F), "C05.bound_peer_is_forwarded_as_channeldata")
+	}
+	want := 2
+	if permToo {
+		want = 1
+	}
+	vAssert(len(turnA.Writes) == want, "C02.datagram_after_expiry_follows_the_tables_of_that_moment")
+	if len(turnA.Writes) == 2 {
+		w := turnA.Writes[1]
+		isCD := vAnd(w.P[0] >= 0x40, w.P[0] <= 0x7F)
+		vAssert(!isCD, "C08.expired_binding_is_never_used_for_channeldata")
+		vAssert(!isCD, "C02.expired_binding_is_never_used_for_channeldata")
+		vAssert(!isCD, "C05.channel_number_is_the_one_bound_to_the_exact_source")
+	}
+	vReach("end")
+}
